@@ -392,6 +392,25 @@ def obligations(tier):
                            desc="one variant and a %d-block location (variant inside one block or outside all): lifted blocks == edit-model images" % k,
                            bounds="unbounded symbolic coordinates",
                            examples=[dict({"s0": 5, "vs": 7, "vl": 2, "p": 9}, **{"l%d" % i: 6 for i in range(k)}, **{"g%d" % i: 3 for i in range(1, k)})]))
+        if a in ((0, 2) if quick else (0, 1, 2, 3)):
+            # overlapping / nested 2-block layouts (signed gap, distinct starts): every block containing the variant is edited, whatever its rank
+            params = dict(layout_params(2))
+            params.update(vs=int, vl=int, p=int)
+
+            def pre_ov(**kw):
+                if not (kw["s0"] >= 0 and kw["l0"] >= 1 and kw["l1"] >= 1 and kw["g1"] > -kw["l0"] and kw["g1"] < 0 and kw["vs"] >= 0 and kw["vl"] >= 1):
+                    return False
+                vs, ve = kw["vs"], kw["vs"] + kw["vl"]
+                for s_, e_ in layout_blocks(2, kw):
+                    if not (e_ <= vs or s_ >= ve or (s_ <= vs and ve <= e_)):
+                        return False
+                return True
+
+            for st in (PLUS, MINUS):
+                out.append(Obl("single_variant_overlapping_blocks_alt%d_%s" % (a, sname(st)), single_variant_compound(a, st, 2), params, pre_ov, budget=600, cost=60,
+                               desc="one variant and a location of two OVERLAPPING blocks (variant inside or outside each): every block is lifted to its edit-model image "
+                                    "(multiplicities of covered positions preserved)", bounds="2 blocks overlapping or nested with distinct starts, unbounded symbolic coordinates",
+                               examples=[dict(s0=5, l0=25, l1=26, g1=-1, vs=29, vl=1, p=30), dict(s0=5, l0=25, l1=6, g1=-10, vs=22, vl=2, p=24)]))
     for a1, a2 in (((0, 2), (2, 0), (3, 3), (1, 0)) if quick else itertools.product((0, 1, 2, 3), repeat=2)):
         out.append(Obl("collection_block_alt%d_alt%d" % (a1, a2), collection_single_block(a1, a2, PLUS),
                        dict(v1s=int, v1l=int, gap=int, v2l=int, s=int, l=int), collection_pre, budget=600, cost=60,
